@@ -7,10 +7,9 @@ from .internal import value_properties as _value_properties
 
 
 def _splitlines(s: str) -> list[str]:
-    lines = s.splitlines(keepends=True)
-    if not lines or lines[-1].endswith('\n'):
-        lines.append('')
-    return lines
+    # str.splitlines also splits on \r, \f, \x1c-\x1e, \x85, \u2028 etc., which do not end a comment line.
+    *lines, last = s.split('\n')
+    return [line + '\n' for line in lines] + [last]
 
 
 @_registry.token_model
